@@ -6,7 +6,7 @@
    the signalling condition are regenerated from /repo/src (Gen/SchedCTab.v). *)
 From Coq Require Import List NArith Arith Bool Lia.
 From LBZ Require Import SchedC.SchedCIface Gen.SchedCTab SchedC.Pool SchedC.PoolLemmas SchedC.SchedC SchedC.SchedCInv
-  SchedC.Tiling SchedC.SchedCOrder SchedC.SchedCLive.
+  SchedC.Tiling SchedC.SchedCOrder SchedC.SchedCOrderU SchedC.SchedCLive SchedC.SchedCProg SchedC.SchedCProgU SchedC.SchedCTerm.
 Import ListNotations.
 
 Section C11.
@@ -42,22 +42,21 @@ Section C11.
     collect_token s = true /\ eof s = true.
   Proof. exact (@c11_final Data Enc data_len enc_empty collect). Qed.
 
-  (* blocks are handed to the writer in stream order: the handed blocks (written or
-     queued for writing) form the gap-free chain 0.0 -> ... -> [order] (each block
-     starts where the previous one ends) with strictly increasing positions; by
-     C03_confluent this chain is a prefix of the block sequence of every complete run.
-     PARTIAL: default mode; the --sequential case is not proved (missing: the
-     invariant tying unfinished_work.next to the head of coll_q). *)
-  Theorem C11_order_partial : forall n lvl inp s, reachable n false lvl inp s ->
+  (* blocks are handed to the writer in stream order (both modes): the handed blocks
+     (written or queued for writing) form the gap-free chain 0.0 -> ... -> [order]
+     (each block starts where the previous one ends) with strictly increasing
+     positions; by C03_confluent this chain is a prefix of the block sequence of every
+     complete run of the default mode. *)
+  Theorem C11_order : forall n u lvl inp s, reachable n u lvl inp s ->
     chain pos0 (map (@iv_wb Enc) (@handed Data Enc s)) (order s) /\
     Sorted.StronglySorted (fun a b => plt (wb_pos a) (wb_pos b)) (@handed Data Enc s).
-  Proof. exact (@c11_order_default Data Enc data_len enc_empty collect). Qed.
+  Proof. exact (@c11_order Data Enc data_len enc_empty collect). Qed.
 
-  (* nothing is lost on the way: a terminal state has handed over every block of the
-     input that was read (default mode) *)
-  Theorem C11_final_order_partial : forall n lvl inp s, 1 <= n -> reachable n false lvl inp s -> final s = true ->
+  (* nothing is lost on the way (both modes): a terminal state has handed over every
+     block of the input that was read *)
+  Theorem C11_final_order : forall n u lvl inp s, 1 <= n -> reachable n u lvl inp s -> final s = true ->
     order s = mkpos (next_id s) 0 /\ output_q s = [] /\ @handed Data Enc s = written s.
-  Proof. exact (@final_order_default Data Enc data_len enc_empty collect). Qed.
+  Proof. exact (@c11_final_order Data Enc data_len enc_empty collect). Qed.
 
   (* whenever the mutex is free and a task is ready (or the process has finished and
      a worker has not exited yet), a signal is pending for a waiting worker or some
@@ -70,12 +69,32 @@ Section C11.
     0 < wakeups s \/ 0 < sumf (@awake_of Data Enc) (workers s).
   Proof. exact (@c11_no_lost_wakeup Data Enc data_len enc_empty collect). Qed.
 
-  (* C11_progress / C11_terminates (deadlock freedom, decreasing measure): NOT proved.
-     Missing: preservation of the three auxiliary invariants of SchedC/SchedCLive.v
-     (queues sorted by position, slot reserve >= TRANSM_THRESH, a unit holder below
-     min(coll_q) when work_units = 0) and the quiescent-state case analysis of
-     DESIGN.md section 4/C11; liveness of the implementation is supported only by the
-     watchdog-timed runs of checks/c11.py (testing). *)
+  (* select_task() respects the documented static priorities (collect_seq, reorder,
+     transmit, collect): nothing of higher priority than the chosen task is ready *)
+  Theorem C11_priority : forall (s : state Data Enc) t, next_task s = Some t -> @Inv Data Enc s ->
+    forall t', prio t' < prio t -> ready s t' = false.
+  Proof. exact (@c11_priority Data Enc enc_empty collect). Qed.
+
+  (* deadlock freedom (both modes): every reachable non-final state has an enabled
+     event that is not an idle (spurious) wake-up *)
+  Theorem C11_progress : forall n u lvl inp s, 1 <= n -> reachable n u lvl inp s -> final s = false ->
+    exists e s', step data_len enc_empty collect s e = Some s' /\ @productive Data Enc s e = true.
+  Proof. exact (@c11_progress Data Enc data_len enc_empty collect). Qed.
+
+  (* termination (both modes): if collect() consumes at least one byte of a non-empty
+     input, every event except an idle wake-up strictly decreases the measure (work
+     left, workers alive, scheduling noise) in the well-founded lexicographic order
+     lt3; with C11_progress: every maximal run is finite up to idle stuttering and
+     ends in a final state. *)
+  Theorem C11_terminates :
+    (forall e d, (0 < data_len d)%N -> (data_len (snd (fst (collect e d))) < data_len d)%N) ->
+    forall n u lvl inp s e s', reachable n u lvl inp s ->
+      step data_len enc_empty collect s e = Some s' -> @productive Data Enc s e = true ->
+      lt3 (@measure Data Enc data_len s') (@measure Data Enc data_len s).
+  Proof. exact (@c11_terminates Data Enc data_len enc_empty collect). Qed.
+
+  Theorem C11_measure_well_founded : well_founded lt3.
+  Proof. exact lt3_wf. Qed.
 End C11.
 
 (* non-vacuity: two workers, one chunk that is split into two blocks (the remainder
